@@ -56,6 +56,13 @@ class _MapToGen(ast.NodeTransformer):
 
 
 class _Untuple(ast.NodeTransformer):
+    def visit_AnnAssign(self, node):
+        # `x: T = v` binds exactly like `x = v` (the annotation is a typing aid)
+        self.generic_visit(node)
+        if node.value is not None and node.simple and isinstance(node.target, ast.Name):
+            return self.visit_Assign(ast.copy_location(ast.Assign(targets=[node.target], value=node.value), node))
+        return node
+
     def visit_Assign(self, node):
         self.generic_visit(node)
         # parallel assignment `a, b = x, y` (take-and-clear by tuple swap): sequential when no earlier target is read later
@@ -577,6 +584,31 @@ def substitute_locals(fn, max_rounds: int = 4) -> bool:
     return changed_any
 
 
+def fold_explaining_returns(fn) -> bool:
+    """``x = E`` immediately followed by ``return x`` (x bound once, used once) -> ``return E``."""
+    changed = False
+    cnt = _store_counts(fn)
+    uses: Dict[str, int] = {}
+    for y in ast.walk(fn):
+        if isinstance(y, ast.Name) and isinstance(y.ctx, ast.Load):
+            uses[y.id] = uses.get(y.id, 0) + 1
+    for node in ast.walk(fn):
+        for fld in ("body", "orelse", "finalbody"):
+            body = getattr(node, fld, None)
+            if not isinstance(body, list):
+                continue
+            i = 0
+            while i + 1 < len(body):
+                a, b = body[i], body[i + 1]
+                if isinstance(a, ast.Assign) and len(a.targets) == 1 and isinstance(a.targets[0], ast.Name) and isinstance(b, ast.Return) and isinstance(b.value, ast.Name) \
+                        and b.value.id == a.targets[0].id and cnt.get(a.targets[0].id, 0) == 1 and uses.get(a.targets[0].id, 0) == 1:
+                    body[i : i + 2] = [ast.copy_location(ast.Return(value=a.value), b)]
+                    changed = True
+                    continue
+                i += 1
+    return changed
+
+
 def _remove_stmt(root, target) -> bool:
     for node in ast.walk(root):
         for fld in ("body", "orelse", "finalbody"):
@@ -608,6 +640,7 @@ def normalize_tree(tree: ast.Module, keep: Iterable[str] = (), substitute_rounds
         elif isinstance(st, ast.ClassDef):
             fns.extend(s2 for s2 in st.body if isinstance(s2, FuncNode))
         for fn in fns:
+            fold_explaining_returns(fn)
             try:
                 substitute_locals(fn, substitute_rounds)
             except RecursionError:
